@@ -12,8 +12,14 @@ import (
 // number of kind combinations down.
 var leafSeen = map[string]int{}
 
+// leafIntOnly: the two-row shape has eight leaves; they are all int64.
+var leafIntOnly bool
+
 func diffLeaf(tag string) any {
 	v := vx.IntIn(tag, -2, 1)
+	if leafIntOnly {
+		return int64(v)
+	}
 	kinds := vx.Param("LEAFKINDS", 4)
 	extra := 0
 	if leafSeen[tag] == 0 && vx.Param("UINT", 1) == 1 {
@@ -94,12 +100,15 @@ func diffTree(tag string, shape int) any {
 		return map[string]any{"c": diffLeaf(tag)}
 	case 8:
 		return map[string]any{}
+	case 9:
+		// two rows: for ignore paths that name different members at different indexes
+		return []any{map[string]any{"a": diffLeaf(tag), "b": diffLeaf(tag)}, map[string]any{"a": diffLeaf(tag), "b": diffLeaf(tag)}}
 	}
 	return []any{diffLeaf(tag), diffLeaf(tag), diffLeaf(tag)}
 }
 
 // shape pairs: the same shape on both sides plus a few mismatched pairs
-var diffPairs = [...][2]int{{0, 0}, {1, 1}, {2, 2}, {3, 3}, {4, 4}, {5, 5}, {6, 6}, {1, 2}, {2, 1}, {1, 6}, {6, 1}, {0, 2}, {3, 1}, {5, 1}, {6, 2}, {2, 6}, {3, 7}, {7, 3}, {7, 7}, {7, 8}, {8, 7}, {8, 8}}
+var diffPairs = [...][2]int{{0, 0}, {1, 1}, {2, 2}, {3, 3}, {4, 4}, {5, 5}, {6, 6}, {1, 2}, {2, 1}, {1, 6}, {6, 1}, {0, 2}, {3, 1}, {5, 1}, {6, 2}, {2, 6}, {3, 7}, {7, 3}, {7, 7}, {7, 8}, {8, 7}, {8, 8}, {9, 9}}
 
 func pathOf(p Path) []any { return []any(p) }
 
@@ -122,11 +131,20 @@ func ignoreMenu(i int) Path {
 		return Path{nil, "a"}
 	case 7:
 		return Path{"b"}
+	case 9:
+		return Path{1, "b"}
+	case 10:
+		return Path{0, "b"}
+	case 11:
+		return Path{1, "a"}
 	}
 	return Path{2}
 }
 
 const numIgnoreMenu = 9
+
+// rowIgnores: the menu entries used (in pairs) with the two-row shape
+var rowIgnores = [...]int{5, 9, 10, 11, 6}
 
 func covered(ignores []Path, leaf []any) bool {
 	for _, ig := range ignores {
@@ -204,10 +222,20 @@ func VerifC19_Diff() {
 	leafSeen = map[string]int{}
 	pair := diffPairs[vx.Choose("shapes", len(diffPairs))]
 	nign := vx.Choose("nign", vx.Param("MAXIGN", 2)+1)
+	rows := pair[0] == 9
+	leafIntOnly = rows
+	if rows {
+		nign = 2 // the two-row shape always gets two ignore paths, from its own menu
+	}
 	var ignores []Path
 	ign := ""
 	for i := 0; i < nign; i++ {
-		m := vx.Choose("ign", numIgnoreMenu)
+		m := 0
+		if rows {
+			m = rowIgnores[vx.Choose("rowign", len(rowIgnores))]
+		} else {
+			m = vx.Choose("ign", numIgnoreMenu)
+		}
 		ignores = append(ignores, ignoreMenu(m))
 		ign += string([]byte{'0' + byte(m)})
 	}
